@@ -466,6 +466,10 @@ func (x *Exec) callContract(s *State, f *Frame, cc *CallCtx, target *ssa.Functio
 	}
 	// snapshot for old()
 	oldHeap := copyMap(s.Heap)
+	oldEpoch := copyMap(s.Epoch)
+	if oldEpoch == nil {
+		oldEpoch = map[string]int{}
+	}
 	for _, m := range spec.Modifies {
 		x.havocPrefix(s, m)
 	}
@@ -487,8 +491,8 @@ func (x *Exec) callContract(s *State, f *Frame, cc *CallCtx, target *ssa.Functio
 	}
 	s.Events = append(s.Events, Event{Kind: "call", Name: target.String(), Args: cc.Args, Rets: []Value{res}, Instr: cc.Instr})
 	// assume ensures with old = pre-call heap
-	s2old := s.Old
-	s.Old = oldHeap
+	s2old, s2oldEpoch := s.Old, s.OldEpoch
+	s.Old, s.OldEpoch = oldHeap, oldEpoch
 	env = s.NewEnv(pf)
 	if res != nil {
 		env.Bound["result"] = res
@@ -515,13 +519,17 @@ func (x *Exec) callContract(s *State, f *Frame, cc *CallCtx, target *ssa.Functio
 		}
 		s.Assume(t)
 	}
-	s.Old = s2old
+	s.Old, s.OldEpoch = s2old, s2oldEpoch
 	return res
 }
 
 // havocPrefix replaces every heap component whose name starts with prefix.
 func (x *Exec) havocPrefix(s *State, prefix string) {
 	prefix = shortKey(prefix)
+	if s.Epoch == nil {
+		s.Epoch = map[string]int{}
+	}
+	s.Epoch[prefix]++
 	for k, v := range s.Heap {
 		if k == prefix || strings.HasPrefix(k, prefix+".") || strings.HasPrefix(k, prefix+"@") {
 			s.Heap[k] = x.Ctx.Fresh("H."+k, v.Sort)
